@@ -1,5 +1,5 @@
 ------------------------------ MODULE ReaderObs ------------------------------
-(* lines: [t |-> "files", files, names, out, endnr (text of NR printed by the end block), exit]                         *)
+(* lines: [t |-> "files", files, names, use (Reader.tla: where the context variables are consulted), out, endnr (text of NR printed by the end block), exit]                         *)
 (*        [t |-> "chain", cs, s, out (the then-chain's output), piped (the output of the same verbs connected by pipes), exit] *)
 EXTENDS Reader, Json
 CONSTANT ObsFile
@@ -18,7 +18,7 @@ ChainOK(cs) == /\ \A i \in 1..Len(cs) : Composable(cs[i])
 Why(o) ==
   IF o.exit # 0 THEN "run failed"
   ELSE IF o.t = "files" THEN
-       (IF o.out # Annotated(FilesOf(o), o.names) THEN "records or NR/FNR/FILENAME/FILENUM/NF wrong"
+       (IF o.out # Used(FilesOf(o), o.names, o.use.mode, o.use.sel) THEN "records or NR/FNR/FILENAME/FILENUM/NF wrong"
         ELSE IF o.endnr # ToString(FinalNR(o.files)) THEN "end block does not see the final NR" ELSE "ok")
   ELSE IF ~ChainOK(o.cs) THEN "ok"      \* outside the composable space (sampled by the harness): not judged
   ELSE (IF o.out # ChainExpected(o.cs, o.s) THEN "then-chain differs from the composition of its verbs"
